@@ -1,3 +1,45 @@
-From Coq Require Import List String.
-Example C16_placeholder : True. Proof. exact I. Qed.
-Print Assumptions C16_placeholder.
+(** C16 — a Getter returns one record per Sid its Finder finds, in the same order.  Property theorems only. *)
+From Coq Require Import List String Ascii Bool Arith.
+From Spil Require Import Base.Str Base.Dict Base.Outcome Base.PyPath Resolva.Resolver Conf.Conf Conf.Routing Conf.WF Sid.Sid
+  Search.Unfold Search.Finders FS.Fs Data.Data Data.Crash Path.PathProofs Data.DataProofs Data.CrashProofs.
+From SpilGen Require Hamlet.
+Import ListNotations.
+Local Open Scope string_scope.
+
+Theorem C16_get_is_map_of_find : forall c Ld, load c = Some Ld -> wf_loadedb Ld = true ->
+  forall F cfg q attrs enc recs, get_paths Ld F cfg q attrs enc = Ok recs ->
+  exists found, ffind Ld F (FPaths "" (default_cfg Ld cfg)) q = Ok found /\
+                List.length recs = List.length found /\
+                Forall2 (fun s r => exists x, Sid Ld s = Ok x /\ get_data_paths Ld F cfg x attrs enc = Ok r) found recs.
+Proof. exact get_is_map_of_find. Qed.
+Print Assumptions C16_get_is_map_of_find.
+
+(* with an attributes list each mapping has exactly those keys *)
+Theorem C16_record_keys : forall c Ld, load c = Some Ld -> wf_loadedb Ld = true ->
+  forall F cfg x attrs enc r, get_data_paths Ld F cfg x attrs enc = Ok r -> attrs <> [] ->
+  (sid_path Ld x (default_cfg Ld cfg) = Ok None /\ r = []) \/ map fst r = attrs.
+Proof. exact record_keys_cases. Qed.
+Print Assumptions C16_record_keys.
+
+(* the Sid under "sid", encoded by the given encoder; omitted when it returns None *)
+Theorem C16_sid_key : forall c Ld, load c = Some Ld -> wf_loadedb Ld = true ->
+  forall F cfg x enc r e p, get_data_paths Ld F cfg x [] enc = Ok r -> encode enc x = Some e -> truthy e = true ->
+  sid_path Ld x (default_cfg Ld cfg) = Ok (Some p) -> dget r "sid" = Some (Some e).
+Proof. exact record_sid_key. Qed.
+Print Assumptions C16_sid_key.
+
+Theorem C16_sid_key_omitted : forall c Ld, load c = Some Ld -> wf_loadedb Ld = true ->
+  forall F cfg x enc r p, get_data_paths Ld F cfg x [] enc = Ok r -> encode enc x = None ->
+  sid_path Ld x (default_cfg Ld cfg) = Ok (Some p) ->
+  r = map (fun kv => (fst kv, Some (snd kv))) (load_sidecar F (sidecar Ld p)) /\
+  dget r "sid" = option_map Some (dget (load_sidecar F (sidecar Ld p)) "sid").
+Proof. exact record_sid_key_untouched. Qed.
+Print Assumptions C16_sid_key_omitted.
+
+(* types configured without a Getter yield nothing, without failing *)
+Theorem C16_no_getter : forall c Ld Rt, load c = Some Ld -> wf_loadedb Ld = true ->
+  forall F search attrs enc qs, unfold_search Ld search false false = Ok qs ->
+  (forall q, In q qs -> getter_for Rt (s_type q) false = GNone) ->
+  get_all Ld Rt F search attrs enc = Ok [].
+Proof. exact get_all_no_getter. Qed.
+Print Assumptions C16_no_getter.
